@@ -2,12 +2,17 @@ import Pko.Util
 import Pko.Model.Cache
 import Pko.Model.CacheSpec
 import Pko.Model.InformerMap
+import Pko.Model.InformerLive
+import Pko.Model.LiveSpec
 /-! Line driver for C12: `model` prints what the model of `Cache` does (same format as the Go
 harness); `monitor` checks an implementation output line against the abstract spec.
 
 Streams (field `t` of the scenario): absent/`seq` = real Cache over a scripted informer-map fake,
 model `Pko.Model.Cache`; `im` = real Cache over the real InformerMap over a counting API fake, model
-`Pko.Model.InformerMap`; `conc`/`ilv` = concurrency exploration, whose harness prints a summary
+`Pko.Model.InformerMap`; `live` = real Cache + real cacheSource (two handlers) over the real InformerMap over
+an API fake that honours request contexts, ops carry context tokens that can be cancelled and objects
+are created while kinds are watched, model `Pko.Model.InformerLive` (code's policy), monitor =
+`Pko.Model.LiveSpec`; `conc`/`ilv` = concurrency exploration, whose harness prints a summary
 (`ok` or what went wrong) and whose model is the constant `ok`. -/
 namespace Pko.Drv.C12
 open Lean Pko.Model.Cache
@@ -17,7 +22,15 @@ structure JOp where
   o : Nat
   k : Nat
   f : String
-  deriving FromJson
+  c : Nat            -- context token of a Watch call (stream `live`)
+
+/-- `op` is required; absent `o`/`k`/`c` default to 0 and `f` to "ok" (the streams do not all use all fields). -/
+instance : FromJson JOp where
+  fromJson? j := do
+    let op ← j.getObjValAs? String "op"
+    let nat (key : String) : Nat := (j.getObjValAs? Nat key).toOption.getD 0
+    let f := (j.getObjValAs? String "f").toOption.getD "ok"
+    return { op := op, o := nat "o", k := nat "k", f := f, c := nat "c" }
 
 structure Scn where
   t : Option String := none
@@ -212,6 +225,123 @@ def monitorIM (sc : Scn) (out : String) : String := Id.run do
       i := i + 1
   return "ok"
 
+/-! ### stream `live`: context lifetimes and event delivery -/
+
+def nKindsLive : Nat := 2
+
+open Pko.Model in
+def toOpLive (j : JOp) : Option InformerLive.Op :=
+  if j.k ≥ nKindsLive then none else
+  match j.op with
+  | "watch" => some (.watch j.o j.k j.c)
+  | "free" => some (.free j.o)
+  | "get" => some (.get j.k)
+  | "cancel" => some (.cancel j.c)
+  | "create" => some (.create j.k)
+  | _ => none
+
+open Pko.Model in
+def lresStr : InformerLive.LRes → String
+  | .ok => "ok" | .err => "err" | .notStarted => "notstarted" | .notFound => "notfound"
+
+def listedStr : Option Nat → String
+  | none => "-" | some n => toString n
+
+open Pko.Model in
+/-- per kind: map entry . open WATCH streams . create events handler 0 . handler 1 . items listed [owners] -/
+def liveKindStr (s : InformerLive.State) (k : Nat) : String :=
+  let m := if (s.base.im.map k).isSome then 1 else 0
+  s!"{m}.{InformerLive.liveCount s k}.{s.events k}.{s.events k}.{listedStr (InformerLive.listed s k)}[{ownersStr (InformerLive.owners s k)}]"
+
+open Pko.Model in
+def modelLive (sc : Scn) : String := Id.run do
+  let mut s := InformerLive.init
+  let mut outs : Array String := #[]
+  for j in sc.opList do
+    match toOpLive j with
+    | none => return "BAD-OP"
+    | some op =>
+      let (s', r) := InformerLive.step InformerLive.codePolicy s op
+      s := s'
+      outs := outs.push s!"{lresStr r} {"|".intercalate ((List.range nKindsLive).map (liveKindStr s))}"
+  return ";".intercalate outs.toList
+
+/-- parse `m.o.e0.e1.l[owners]` (`l` = number or `-`) -/
+def parseKindLive (t : String) : Option (List Nat × String × String) :=
+  match t.splitOn "[" with
+  | [nums, os] =>
+    match nums.splitOn "." with
+    | [m, o, e0, e1, l] =>
+      let ns := [m, o, e0, e1].filterMap String.toNat?
+      if ns.length = 4 ∧ os.endsWith "]" then some (ns, l, (os.dropEnd 1).toString) else none
+    | _ => none
+  | _ => none
+
+open Pko.Model in
+/-- Monitor of the `live` stream.  Replays the specification `Pko.Model.LiveSpec` (who watches what,
+which call contexts have ended, objects per kind, create events every handler must have received)
+and checks the implementation's observation after every op, for every kind:
+* delivery (`streams = false`, checked first over the whole scenario): the result of the call; every
+  handler has received exactly the create events specified — in particular an object created while at
+  least one owner watches the kind has reached every handler within the wait bound, whichever `Watch`
+  contexts have ended; `Cache.List` returns every object of a watched kind and refuses unwatched kinds;
+  `Get` of the newest object of a watched kind succeeds;
+* informers (`streams = true`): owner sets; an informer-map entry and exactly one open WATCH stream
+  iff the kind has an owner; quiescence was reached within the wait bound.
+A `Watch` under an already ended context that has to start an informer may succeed or fail (the call
+cannot wait for the first sync); the spec follows the implementation's answer. -/
+def monitorLivePass (sc : Scn) (steps : List String) (streams : Bool) : String := Id.run do
+  let mut s := LiveSpec.init
+  let mut i := 0
+  for (j, st) in sc.opList.zip steps do
+    match toOpLive j with
+    | none => return "bad BAD-OP"
+    | some op =>
+      let toks := st.splitOn " "
+      let (res, obs, timeout) := match toks with
+        | [a, b] => (a, b, false)
+        | [a, b, "TIMEOUT"] => (a, b, true)
+        | _ => ("?", "", false)
+      if st == "HANG" then return s!"bad call-hangs step={i} op={j.op} kind={j.k} owner={j.o} ctx={j.c}"
+      let (s', r) := match op with
+        | .watch o k c =>
+          if (s.w k).isEmpty && s.done c && res == "ok" then (LiveSpec.start s o k, InformerLive.LRes.ok)
+          else LiveSpec.step s op
+        | _ => LiveSpec.step s op
+      s := s'
+      let kinds := obs.splitOn "|"
+      if kinds.length != nKindsLive then return s!"bad format step={i} got={st.take 80}"
+      if !streams && res != lresStr r then
+        return s!"bad result step={i} op={j.op} kind={j.k} want={lresStr r} got={res} owners=[{ownersStr (s.w j.k)}] objects={s.objs j.k}"
+      for (k, kt) in (List.range nKindsLive).zip kinds do
+        match parseKindLive kt with
+        | some ([m, o, e0, e1], l, os) =>
+          let ob := LiveSpec.obs s k
+          if !streams then
+            for (h, e) in [(0, e0), (1, e1)] do
+              if e < ob.events then
+                return s!"bad not-delivered step={i} op={j.op} kind={k} handler={h} events={e} want={ob.events} objects={s.objs k} owners=[{ownersStr (s.w k)}]"
+              if e > ob.events then
+                return s!"bad spurious-events step={i} op={j.op} kind={k} handler={h} events={e} want={ob.events} owners=[{ownersStr (s.w k)}]"
+            if l != listedStr ob.listed then
+              return s!"bad not-visible step={i} op={j.op} kind={k} listed={l} want={listedStr ob.listed} owners=[{ownersStr (s.w k)}]"
+          else
+            if os != ownersStr ob.owners then return s!"bad owners step={i} op={j.op} kind={k} want=[{ownersStr ob.owners}] got=[{os}]"
+            if o != ob.streams then return s!"bad open-streams step={i} op={j.op} kind={k} open={o} want={ob.streams} owners=[{ownersStr (s.w k)}]"
+            if (m == 1) != ob.entry then return s!"bad map-entry step={i} op={j.op} kind={k} entry={m} owners=[{ownersStr (s.w k)}]"
+        | _ => return s!"bad format step={i} kind={k} got={kt.take 40}"
+      if streams && timeout then return s!"bad no-quiescence step={i} op={j.op}"
+      i := i + 1
+  return "ok"
+
+def monitorLive (sc : Scn) (out : String) : String :=
+  let steps := if out.isEmpty then [] else out.splitOn ";"
+  if steps.getLast? != some "HANG" && steps.length != sc.opList.length then s!"bad step-count impl={steps.length} scn={sc.opList.length} out={out.take 80}"
+  else
+    match monitorLivePass sc steps false with
+    | "ok" => monitorLivePass sc steps true
+    | bad => bad
+
 /-! ### dispatch -/
 
 def stripBad (out : String) : String :=
@@ -221,6 +351,7 @@ def model (sc : Scn) : String :=
   match sc.t with
   | none | some "seq" => modelSeq sc
   | some "im" => modelIM sc
+  | some "live" => modelLive sc
   | some "conc" | some "ilv" => "ok"
   | some t => s!"BAD-STREAM {t}"
 
@@ -228,6 +359,7 @@ def monitor (sc : Scn) (out : String) : String :=
   match sc.t with
   | none | some "seq" => monitorSeq sc out
   | some "im" => monitorIM sc out
+  | some "live" => monitorLive sc out
   | some "conc" => if out == "ok" then "ok" else s!"bad concurrent: {stripBad out}"
   | some "ilv" => if out == "ok" then "ok" else s!"bad interleaving: {stripBad out}"
   | some t => s!"bad BAD-STREAM {t}"
